@@ -1,0 +1,15 @@
+//go:build verif
+
+package transport
+
+// Verification hook for property C20 (add-only, build tag "verif").
+
+// VerifC20WithLock runs fn while holding the transport's mutex: every goroutine of the transport that needs the
+// mutex (getIdleConn, asyncDial, releaseConn: the epilogue of an exchange worker) is parked for that long. The
+// harness uses it to replay the ordering "the caller got its reply and cancelled its context while the worker
+// goroutine of that exchange was still in its epilogue" (contention on the mutex) deterministically.
+func (t *ReuseConnTransport) VerifC20WithLock(fn func()) {
+	t.m.Lock()
+	defer t.m.Unlock()
+	fn()
+}
